@@ -51,7 +51,7 @@ impl Prop for Sem {
             },
             Which::C02 => EvidenceSpec {
                 level: "model_checking",
-                rule: "Operand sweep: every one of the 9 binary operators and negation on every ordered pair of 19 boundary integers (0, +-1, +-2, +-3, +-7, +-2^31, +-(2^63-1), +-2^63, +-2^64, +-10^30; negative operands spelled both -n and 0 - n), expected results computed by the reference (division specified by its defining identity); factorial, Fibonacci, even/odd mutual recursion, accumulator recursion, higher-order `twice`, Ackermann for small arguments, evaluation-order probes in which only the prescribed order avoids a division by zero or a loop, the repository's terminating examples; every type-directed program and the alias family. States = terms reached by the real `step`; in every visited state the reference interpreter started from that state must produce the same outcome as from the source program (semantic invariance), and the final value must be the prescribed one. non-trivial = programs whose ground value was compared".to_owned(),
+                rule: "Operand sweep: every one of the 9 binary operators and negation on every ordered pair of 19 boundary integers (0, +-1, +-2, +-3, +-7, +-2^31, +-(2^63-1), +-2^63, +-2^64, +-10^30; negative operands spelled both -n and 0 - n), expected results computed by the reference (division specified by its defining identity); factorial, Fibonacci, even/odd mutual recursion, accumulator recursion, higher-order `twice`, Ackermann for small arguments, evaluation-order probes in which only the prescribed order avoids a division by zero or a loop, the repository's terminating examples; every sentence of the arithmetic / comparison sub-grammar over literals up to 9/10 tokens (all nine operators, negation, parentheses; distinct literal values by position; prescribed value = the reference interpreter on the tree grammar.y assigns, ill-typed sentences must be rejected); every type-directed program, the alias family and the type-valued groups. States = terms reached by the real `step`; in every visited state the reference interpreter started from that state must produce the same outcome as from the source program (semantic invariance), and the final value must be the prescribed one. non-trivial = programs whose ground value was compared".to_owned(),
                 assumptions: base_assumptions,
                 evaluations: "evaluations",
                 nontrivial: "nontrivial",
@@ -60,7 +60,7 @@ impl Prop for Sem {
                 traces: Some("traces_validated"),
                 exhaustive: true,
                 bounds,
-                minimums: vec![("known_result_programs", 3000), ("value_as_prescribed", 30_000), ("traces_validated", 100_000)],
+                minimums: vec![("known_result_programs", 3000), ("expression_sentences", 20_000), ("value_as_prescribed", 30_000), ("traces_validated", 100_000)],
             },
             Which::C03 => EvidenceSpec {
                 level: "exploration",
@@ -90,7 +90,7 @@ impl Prop for Sem {
             },
             Which::C06 => EvidenceSpec {
                 level: "model_checking",
-                rule: "(i) every type-directed program and alias-family program of type int or bool whose evaluation terminates: the real normalize_weak_head of the elaborated term must be the literal the real step* reaches; (ii) in each of the first 30 states of those evaluator graphs (hole-free): the real unify(s, s), unify(s0, s) and unify(s_prev, s) must be true and leave the context empty; (iii) every ordered pair of the 420/1000 smallest closed hole-free type-directed terms of each goal type: unify(a, b) = unify(b, a) = the reference's conversion verdict (pairs on which the reference runs out of fuel are skipped). non-trivial = programs compared under (i) + pairs compared under (iii)".to_owned(),
+                rule: "(i) every type-directed program and alias-family program of type int or bool whose evaluation terminates: the real normalize_weak_head of the elaborated term must be the literal the real step* reaches; (ii) in each of the first 30 states of those evaluator graphs (hole-free): the real unify(s, s), unify(s0, s) and unify(s_prev, s) must be true and leave the context empty; (iii) every ordered pair of the 420/1000 smallest closed hole-free type-directed terms of each goal type (with the implicit twins of the first functions and function types), of 62 terms whose operators are stuck on variables, and of 150 terms applying a variable to two and three convertible but differently written arguments: unify(a, b) = unify(b, a) = the reference's conversion verdict (pairs on which the reference runs out of fuel are skipped). non-trivial = programs compared under (i) + pairs compared under (iii)".to_owned(),
                 assumptions: base_assumptions,
                 evaluations: "evaluations",
                 nontrivial: "nontrivial",
